@@ -147,6 +147,12 @@ func fileExists(p string) bool {
 	return err == nil
 }
 
+// pathExists: anything at the path, also a dangling or special link
+func pathExists(p string) bool {
+	_, err := os.Lstat(p)
+	return err == nil
+}
+
 // run executes all commands, writing the transcript (each command line,
 // followed by an "r ..." observation line where the command yields one).
 func (e *Exec) run(cmds []*Cmd, out *bufio.Writer) {
@@ -435,6 +441,18 @@ func (e *Exec) doPersist(c *Cmd) string {
 	if v, ok := c.KV["fsize"]; ok {
 		limit, _ := strconv.Atoi(v)
 		full := c.num("full", -1)
+		if c.str("devfull", "0") == "1" {
+			// a device without space (a genuine ENOSPC, not the EFBIG of a size limit): the
+			// path is a link to /dev/full; nothing may be left at the path afterwards
+			os.Remove(p)
+			if os.Symlink("/dev/full", p) != nil {
+				return fmt.Sprintf("err:io file=0 limit=%d full=%d nodevfull=1", limit, full)
+			}
+			err = up.Persist(p)
+			left := pathExists(p)
+			os.Remove(p)
+			return fmt.Sprintf("%s file=%s limit=%d full=%d devfull=1", errKind(err), b01(left), limit, full)
+		}
 		err = withFsizeLimit(limit, func() error { return up.Persist(p) })
 		return fmt.Sprintf("%s file=%s limit=%d full=%d", errKind(err), b01(fileExists(p)), limit, full)
 	}
@@ -571,9 +589,15 @@ func (e *Exec) doMerge(c *Cmd, gsuffix string) string {
 		return err
 	}
 	extra := ""
+	devfull := false
 	if v, ok := c.KV["fsize"]; ok {
 		limit, _ := strconv.Atoi(v)
-		withFsizeLimit(limit, call)
+		if c.str("devfull", "0") == "1" && os.Symlink("/dev/full", p) == nil {
+			devfull = true
+			call()
+		} else {
+			withFsizeLimit(limit, call)
+		}
 		extra = fmt.Sprintf(" limit=%d full=%d", limit, c.num("full", -1))
 	} else if v, ok := c.KV["engfail"]; ok {
 		// engfail=<op>:<n>
@@ -589,6 +613,11 @@ func (e *Exec) doMerge(c *Cmd, gsuffix string) string {
 	}
 	if cl != "never" {
 		extra += fmt.Sprintf(" close=%s reports=%d", cl, rep.n)
+	}
+	if devfull {
+		left := pathExists(p)
+		os.Remove(p)
+		return fmt.Sprintf("%s file=%s%s devfull=1", errKind(err), b01(left), extra)
 	}
 	if err != nil {
 		return fmt.Sprintf("%s file=%s%s", errKind(err), b01(fileExists(p)), extra)
@@ -1161,7 +1190,8 @@ func (e *Exec) qThes(c *Cmd, sg segment.Segment, sl *slots) string {
 		sl.sis[siSlot] = it
 	}
 	var pairs []string
-	for {
+	take := c.num("take", -1)
+	for take < 0 || len(pairs) < take {
 		s, err := it.Next()
 		if err != nil {
 			return errKind(err)
@@ -1170,6 +1200,10 @@ func (e *Exec) qThes(c *Cmd, sg segment.Segment, sl *slots) string {
 			break
 		}
 		pairs = append(pairs, fmt.Sprintf("%s:%d", hx([]byte(s.Term())), s.Number()))
+	}
+	if take >= 0 {
+		// an iteration abandoned early: which pairs come first is file-local, their number is not
+		return fmt.Sprintf("n=%d", len(pairs))
 	}
 	sort.Strings(pairs)
 	if len(pairs) == 0 {
@@ -1227,6 +1261,7 @@ func (e *Exec) expand(c *Cmd, out *bufio.Writer) {
 				emit(fmt.Sprintf("persist %s %s fsize=%d full=%d", seg, file, l, full))
 			}
 		}
+		emit(fmt.Sprintf("persist %s %s fsize=0 full=%d devfull=1", seg, file, full))
 		emit(fmt.Sprintf("persist %s %s", seg, file))
 	case "writetofaults":
 		seg := c.Pos[0]
@@ -1296,14 +1331,20 @@ func (e *Exec) expand(c *Cmd, out *bufio.Writer) {
 					emit(fmt.Sprintf("%s fsize=%d full=%d", base, l, full))
 				}
 			}
+			emit(fmt.Sprintf("%s fsize=0 full=%d devfull=1", base, full))
 		} else {
 			emit(base + " close=before")
+			emit(base + " close=before keep=1") // an older output is at the path
 			step := 1
 			for reports/step > c.num("max", 400) {
 				step++
 			}
 			for k := 1; k <= reports; k += step {
-				emit(fmt.Sprintf("%s close=report:%d", base, k))
+				if k%2 == 0 {
+					emit(fmt.Sprintf("%s close=report:%d keep=1", base, k)) // an older output is at the path
+				} else {
+					emit(fmt.Sprintf("%s close=report:%d", base, k))
+				}
 			}
 			emit(fmt.Sprintf("%s close=report:%d", base, reports))
 			emit(fmt.Sprintf("%s close=report:%d", base, reports+5))
